@@ -1,6 +1,8 @@
 import CedarVerif.Lemmas.ManifestCheck
 import CedarVerif.Lemmas.ManifestEnd
+import CedarVerif.Lemmas.ManifestValid
 import CedarVerif.Thm.C01
+import CedarVerif.Thm.C11
 /-
 C17 — Entity-manifest slicing keeps everything authorization needs.
 
@@ -409,6 +411,79 @@ example :
       simp only [Ex.pol3, SafeOps, and_true]
       exact ⟨nonRec_of_check rfl, nonRec_of_check rfl⟩
   · decide +kernel
+
+/-! ## strictly valid policies, conformant data: the C03 and C11 notions -/
+
+/-- C17 FOR VALID POLICIES AND CONFORMANT DATA (core fragment).  `s` is a schema as Rust constructs them (`SchemaClosed`:
+`SchemaWF3` of C03 + no open entity types), `env` the request environment of `req`; request and store conform to the
+schema in the sense of C11 / C03 (`ConformsRequest`, `StoreConforms`; the store holds the schema's action entities); every
+policy is static, lies in the core fragment (`FragE`: the constructs of `InFrag`), is accepted by the STRICT TYPECHECKER
+MODEL of C03 in `env` and not typed `False` there (for those the property fails — known finding — and Rust analyses no AST).
+The manifest is computed from the policies' typed ASTs (`typedAst`: annotated with `typeOf`'s types and transformed where
+the typechecker short-circuits, as typecheck.rs does), annotated by `to_typed`, and the store is sliced by it.  Then
+authorization of THE ORIGINAL POLICIES over the slice gives the same response — decision, determining policies, erroring
+policies — as over the full store.  Remaining side conditions: `NoRecOps` (`==` does not compare records and `contains`
+does not look for a record, a syntactic condition on the typed AST) and `CtxWF` (the context is a map: unique keys).
+Both obligations of `full_statement_of_fragment` are discharged here: `ConfRoots` by `confRoots_all` (C11 conformance ⇒
+trie-directed conformance, for every trie), `SafeOps` — in its lazy form `Sim` — by `sim_typed` (C03 type soundness). -/
+theorem manifest_sound_valid (s : Schema) (hWF : SchemaClosed s) (env : RequestEnv) (req : Request) (es es' : Entities)
+    (ps : List Policy) (t : RootAccessTrie)
+    (henv : EnvMatches s env req) (hslots : env.principalSlot = none ∧ env.resourceSlot = none)
+    (hreq : ConformsRequest s req) (hst : StoreConforms s es) (hact : Cedar.C03.ActionsPresent s es) (hctx : CtxWF req)
+    (hps : ∀ p, p ∈ ps → p.env = [] ∧ FragE p.condition ∧ NoRecOps (typedAst s env p.condition []) ∧
+      ∃ v, checkEnv .strict s env p.condition = some v ∧ v ≠ .fail ∧ v ≠ .ff)
+    (hm : manifestOfEnvs s ⟨env.principal, env.action, env.resource⟩ (ps.map (fun p => typedAst s env p.condition [])) = .ok t)
+    (hs : sliceStore (some t) req es = .ok es') :
+    isAuthorized req es' ps = isAuthorized req es ps := by
+  obtain ⟨h1, h2, h3, _⟩ := henv
+  have henv : EnvMatches s env req := ⟨h1, h2, h3, ‹_›⟩
+  have hconf : ∀ t0, manifestOfEnvs.go [] (ps.map (fun p => typedAst s env p.condition [])) = .ok t0 →
+      ConfRoots s ⟨env.principal, env.action, env.resource⟩ es req t0 :=
+    fun t0 _ => confRoots_all hWF hst hreq h1.symm h2.symm h3.symm t0
+  have huk : ∀ e, e ∈ ps.map (fun p => typedAst s env p.condition []) → TypesUK e := by
+    intro e he
+    simp only [List.mem_map] at he
+    obtain ⟨p, hp, e1⟩ := he
+    subst e1
+    exact typesUK_typed hWF.toSchemaWF3 henv p.condition (hps p hp).2.1 []
+  obtain ⟨hsub, hcov⟩ := slice_of_manifest s _ req es es' _ t hctx huk hm hconf hs
+  have hsem : Cedar.C03.Sem s env ⟨req, es, []⟩ :=
+    ⟨hreq, hst, ⟨fun t ht => (by rw [hslots.1] at ht; cases ht), fun t ht => (by rw [hslots.2] at ht; cases ht)⟩, hact⟩
+  apply isAuthorized_congr
+  intro p hp
+  obtain ⟨hpe, hfrag, hnr, v, hv, hne, _⟩ := hps p hp
+  obtain ⟨r, hr, hc⟩ := hcov (typedAst s env p.condition []) (List.mem_map.2 ⟨p, hp, rfl⟩)
+  -- the typing of the condition
+  have hty : ∃ τ c', typeOf .strict s env p.condition [] = .ok (τ, c') := by
+    unfold checkEnv at hv
+    cases hE : expectOneOf (typeOf .strict s env p.condition []) [boolT] with
+    | error err =>
+      rw [hE] at hv
+      cases err <;> simp at hv
+      exact (hne hv.symm).elim
+    | ok q =>
+      obtain ⟨τ, c'⟩ := q
+      exact ⟨τ, c', (expectOneOf_ok hE).1⟩
+  obtain ⟨τ, c', hty⟩ := hty
+  have hsim := sim_typed hWF.toSchemaWF3.toSchemaWF2 henv hsem p.condition hfrag [] τ c' hty (capsHold_nil _) hnr
+  have h := eval_sim hsub hctx hsim r hr hc
+  rw [outcome_eq_outcomeOf, outcome_eq_outcomeOf, hpe]
+  exact outcome_of_rel h
+
+/-- `manifest_sound_valid` + C01: over the slice, `Allow` is decided exactly when, over the FULL store, some permit is
+satisfied and no forbid is. -/
+theorem decision_sliced_valid (s : Schema) (hWF : SchemaClosed s) (env : RequestEnv) (req : Request) (es es' : Entities)
+    (ps : List Policy) (t : RootAccessTrie)
+    (henv : EnvMatches s env req) (hslots : env.principalSlot = none ∧ env.resourceSlot = none)
+    (hreq : ConformsRequest s req) (hst : StoreConforms s es) (hact : Cedar.C03.ActionsPresent s es) (hctx : CtxWF req)
+    (hps : ∀ p, p ∈ ps → p.env = [] ∧ FragE p.condition ∧ NoRecOps (typedAst s env p.condition []) ∧
+      ∃ v, checkEnv .strict s env p.condition = some v ∧ v ≠ .fail ∧ v ≠ .ff)
+    (hm : manifestOfEnvs s ⟨env.principal, env.action, env.resource⟩ (ps.map (fun p => typedAst s env p.condition [])) = .ok t)
+    (hs : sliceStore (some t) req es = .ok es') :
+    (isAuthorized req es' ps).decision = .allow ↔
+      (∃ p, p ∈ ps ∧ p.effect = .permit ∧ Sat req es p) ∧ ¬ (∃ p, p ∈ ps ∧ p.effect = .forbid ∧ Sat req es p) := by
+  rw [manifest_sound_valid s hWF env req es es' ps t henv hslots hreq hst hact hctx hps hm hs]
+  exact Cedar.C01.allow_iff req es _
 
 /-! ## the full statement -/
 
